@@ -34,6 +34,7 @@ type Analysis struct {
 	EventArgs       func(st *State, desc string, args []*Expr) string // optional argument rendering for call events
 	StoreHook       func(st *State, addr, val *Expr, in *ssa.Store)   // optional observer of every store (also in inlined helpers)
 	AfterFlow       func(from, to *ssa.BasicBlock, st *State)         // optional: strengthen the state entering a block (loop-head assumptions of a rule)
+	InlineClosures  bool                                              // analyse directly called closures in place (their events become the caller's)
 	Unroll          int64                                             // trip-count limit for unrolling counted loops (default 8)
 	ForceInline     map[string]bool                                   // known functions analysed in caller context by this analysis only
 	EventsInInlined bool
@@ -380,6 +381,19 @@ func (a *Analysis) step(st *State, fr *frame, in ssa.Instruction) {
 			a.StoreHook(st, addr, val, x)
 		}
 		st.store(addr, val, siteTok(fr, x))
+		// "a store into this field happened" (whatever the value)
+		switch {
+		case addr.Op == "fa":
+			st.event("store:" + addr.S)
+		case addr.Op == "ia" && len(addr.Args) == 2:
+			base := addr.Args[0]
+			if base.Op == "arr" && len(base.Args) > 0 {
+				base = base.Args[0]
+			}
+			if base.Op == "fa" {
+				st.event("store:" + base.S + "[]")
+			}
+		}
 		if addr.Op == "fa" {
 			nn := false
 			if c, ok := st.nonNil(val).IsConst(); ok && c == 1 {
@@ -596,6 +610,9 @@ func (a *Analysis) call(st *State, fr *frame, c *ssa.Call) {
 	}
 	if fr == nil || a.EventsInInlined {
 		st.event("call:" + desc)
+		if desc == "builtin:close" && len(cc.Args) == 1 && len(args) == 1 {
+			st.event("close:" + a.chanEventName(cc.Args[0], args[0]))
+		}
 		if a.EventArgs != nil {
 			if s := a.EventArgs(st, desc, args); s != "" {
 				st.event("call:" + desc + "(" + s + ")")
@@ -1757,7 +1774,7 @@ func (a *Analysis) shouldInlineMulti(c *ssa.Call, callee *ssa.Function) bool {
 		if !ok || !onlyCalledDirectly(mc) || len(callee.Blocks) == 0 || len(callee.Blocks) > 60 || len(a.stack) >= maxHelperDepth {
 			return false
 		}
-		mut := false
+		mut := a.InlineClosures
 		for i := range mc.Bindings {
 			if cellMutatedBy(callee, i, 0) {
 				mut = true
@@ -1842,7 +1859,7 @@ func (a *Analysis) inlineMulti(st *State, c *ssa.Call, callee *ssa.Function) ([]
 	}
 	sub := NewAnalysis(a.P, callee)
 	sub.AtomHook, sub.EventArgs, sub.CallModel, sub.NoInline, sub.TrackFields, sub.OpaqueFields = a.AtomHook, a.EventArgs, a.CallModel, a.NoInline, a.TrackFields, a.OpaqueFields
-	sub.StoreHook, sub.ForceInline = a.StoreHook, a.ForceInline
+	sub.StoreHook, sub.ForceInline, sub.InlineClosures = a.StoreHook, a.ForceInline, a.InlineClosures
 	sub.AfterFlow = a.AfterFlow
 	sub.baseFrame = nf
 	sub.stack = append(append([]*ssa.Function{}, a.stack...), a.Fn)
